@@ -38,8 +38,8 @@ Theorem C52_serialize_buffer_exact : forall big s, length (w_shape big s) = allo
 Proof. exact alloc_size_exact. Qed.
 Print Assumptions C52_serialize_buffer_exact.
 
-(* without the well-formedness guard the round trip is false of the faithful model: a LINESTRING with one
-   point (which ST_GeomFromText accepts) is written in 29 bytes and DeserializeLine demands 36 *)
+(* a fact about INVALID input, not a finding: without the well-formedness guard the round trip is false of the
+   faithful model - a LINESTRING with one point is written in 29 bytes and DeserializeLine demands 36 *)
 Theorem C52_wkb_roundtrip_refuted : exists g, deserialize (serialize g) <> Ok g.
 Proof. exact roundtrip_refuted. Qed.
 Print Assumptions C52_wkb_roundtrip_refuted.
